@@ -41,10 +41,17 @@ class C01(Check):
                                 '(classify refuses it explicitly)')
         exp = symx.explore(classify_db.harness, self.db_ctx, name='classify_intervals[G=%d]' % G)
         self.absorb(exp, need_paths=2)
+        # a stretch boundary between two neighbouring instants that both carry a level (see C03 / dbstate.labels_of)
+        for b in ([1, 2] if self.tier == 'quick' else list(range(G))):
+            exp = symx.explore(classify_db.harness, dict(self.db_ctx, brk=(b,)), name='classify_intervals_break%d[G=%d]' % (b, G))
+            self.absorb(exp, need_paths=2)
 
     def replay(self, failure):
         if failure['harness'].startswith('classify_intervals'):
             G = int(failure['harness'].split('=')[1].rstrip(']'))
-            return classify_db.replay_failure({'G': G, 'step_s': 1800}, failure)
+            ctx = {'G': G, 'step_s': 1800}
+            if '_break' in failure['harness']:
+                ctx['brk'] = (int(failure['harness'].split('_break')[1].split('[')[0]),)
+            return classify_db.replay_failure(ctx, failure)
         N = int(failure['harness'].split('=')[1].rstrip(']'))
         return classify_fn.replay_failure(N, failure)
